@@ -4,7 +4,7 @@
 From Ecal Require Import Common.Bytes Model.StrInterp.
 
 Record case := mkCase {
-  c_id : nat;
+  c_id : N;
   c_allow : bool;                      (* Token.AllowEscapes: false for raw strings *)
   c_lit : bytes;                       (* token value *)
   c_table : list (bytes * bytes);      (* code -> replacement text *)
@@ -38,7 +38,7 @@ Definition verdict (c : case) : nat :=
     else 0%nat
   end.
 
-Definition check_all (cs : list case) : list (nat * nat) :=
+Definition check_all (cs : list case) : list (N * nat) :=
   filter (fun p => negb (Nat.eqb (snd p) 0)) (map (fun c => (c_id c, verdict c)) cs).
 
 Definition model_out (c : case) : option (bytes * list bytes) :=
